@@ -36,6 +36,10 @@ enum St {
     Running,
     Parked(&'static str),
     WaitWriter,
+    /// inside mmap-append's Deref, holding the map's read lock, about to take it a second time
+    WaitMapRead,
+    /// inside mmap-append's resize, about to take the map's write lock
+    WaitMapWrite,
     Done,
 }
 
@@ -53,6 +57,13 @@ struct CtlState {
     /// (thread, op index) in grant order
     grant_ops: Vec<(usize, usize)>,
     hung: bool,
+    /// threads currently holding the event map's read lock inside Deref
+    map_readers: Vec<bool>,
+    /// a thread waiting for the event map's write lock (std's RwLock then blocks new readers)
+    map_write_waiting: Option<usize>,
+    /// a modelled dead-lock was found: let the threads run out without lock modelling
+    draining: bool,
+    map_deadlock: Option<String>,
 }
 
 pub struct Ctl {
@@ -75,6 +86,10 @@ impl Ctl {
                 cur_op: vec![0; n],
                 grant_ops: vec![],
                 hung: false,
+                map_readers: vec![false; n],
+                map_write_waiting: None,
+                draining: false,
+                map_deadlock: None,
             }),
             cv: Condvar::new(),
             resizes: std::sync::atomic::AtomicU64::new(0),
@@ -112,6 +127,54 @@ impl Ctl {
         if g.writer == Some(t) {
             g.writer = None;
         }
+    }
+}
+
+static MAP_CTL: Mutex<Option<Arc<Ctl>>> = Mutex::new(None);
+
+/// set when the real-thread probe did NOT confirm that a recursive read dead-locks against a
+/// queued writer on this platform: the lock model is then left out
+pub static NO_MAPLOCK_MODEL: std::sync::atomic::AtomicBool = std::sync::atomic::AtomicBool::new(false);
+
+/// Handler for the yield hooks inside the (vendored) mmap-append: models the two read locks of
+/// `Deref::deref` and the write lock of `resize` as std's writer-preferring RwLock behaves
+/// (a new reader waits while a writer waits), without ever letting a real thread block.
+fn map_hook(name: &'static str) {
+    let t = match TID.with(|c| c.get()) {
+        Some(t) => t,
+        None => return,
+    };
+    let ctl = match MAP_CTL.lock().unwrap().clone() {
+        Some(c) => c,
+        None => return,
+    };
+    match name {
+        "mmap:deref_between_reads" => {
+            let draining = {
+                let mut g = ctl.m.lock().unwrap();
+                g.map_readers[t] = true;
+                g.draining
+            };
+            if !draining {
+                // the second read(): waits while a writer is queued
+                ctl.yield_at(t, St::WaitMapRead);
+            }
+        }
+        "mmap:deref_done" => {
+            let mut g = ctl.m.lock().unwrap();
+            g.map_readers[t] = false;
+        }
+        "mmap:resize_before_write" => {
+            {
+                let mut g = ctl.m.lock().unwrap();
+                g.map_write_waiting = Some(t);
+            }
+            // write(): waits until no reader holds the lock
+            ctl.yield_at(t, St::WaitMapWrite);
+            let mut g = ctl.m.lock().unwrap();
+            g.map_write_waiting = None;
+        }
+        _ => {}
     }
 }
 
@@ -771,6 +834,10 @@ pub fn run_conc_full(trace: &Trace, scratch: PathBuf, verbose: bool, known_open:
     let n = trace.threads.len();
     let ctl = Arc::new(Ctl::new(n));
     pocket_db::verif::install(Some(Arc::new(ConcHooks { ctl: ctl.clone() })));
+    if !NO_MAPLOCK_MODEL.load(std::sync::atomic::Ordering::Relaxed) {
+        *MAP_CTL.lock().unwrap() = Some(ctl.clone());
+        mmap_append::verif_set_hook(Some(map_hook));
+    }
     let mut policy = if !trace.schedule.is_empty() {
         Policy::Replay(trace.schedule.clone(), 0)
     } else {
@@ -864,13 +931,30 @@ pub fn run_conc_full(trace: &Trace, scratch: PathBuf, verbose: bool, known_open:
             if g.status.iter().all(|s| *s == St::Done) {
                 break;
             }
-            let runnable: Vec<usize> = (0..n)
-                .filter(|t| match g.status[*t] {
-                    St::Parked(_) => true,
-                    St::WaitWriter => g.writer.is_none(),
-                    _ => false,
-                })
-                .collect();
+            let compute = |g: &CtlState| -> Vec<usize> {
+                (0..n)
+                    .filter(|t| match g.status[*t] {
+                        St::Parked(_) => !g.draining || !g.map_readers.iter().any(|r| *r) || g.map_readers[*t],
+                        St::WaitWriter => g.writer.is_none() && (!g.draining || !g.map_readers.iter().any(|r| *r)),
+                        St::WaitMapRead => g.draining || g.map_write_waiting.is_none(),
+                        St::WaitMapWrite => (0..n).all(|u| u == *t || !g.map_readers[u]),
+                        _ => false,
+                    })
+                    .collect()
+            };
+            let mut runnable = compute(&g);
+            if runnable.is_empty() && g.status.iter().any(|s| matches!(s, St::WaitMapRead | St::WaitMapWrite)) && !g.draining {
+                // modelled dead-lock: a reader inside Deref holds the read lock and wants it again
+                // while a growing writer is queued for the write lock
+                let readers: Vec<usize> = (0..n).filter(|t| g.status[*t] == St::WaitMapRead).collect();
+                let writer = g.map_write_waiting;
+                g.map_deadlock = Some(format!(
+                    "thread(s) {:?} hold the event map's read lock inside Deref and request it again while thread {:?} (growing the map in store_event) waits for the write lock: with std's writer-preferring RwLock neither can proceed",
+                    readers, writer
+                ));
+                g.draining = true;
+                runnable = compute(&g);
+            }
             if runnable.is_empty() {
                 deadlock = true;
                 break;
@@ -903,6 +987,8 @@ pub fn run_conc_full(trace: &Trace, scratch: PathBuf, verbose: bool, known_open:
             let from = match g.status[pick] {
                 St::Parked(p) => p.to_string(),
                 St::WaitWriter => "write_txn".to_string(),
+                St::WaitMapRead => "mmap:deref_second_read".to_string(),
+                St::WaitMapWrite => "mmap:resize_write_lock".to_string(),
                 _ => "?".to_string(),
             };
             if g.status[pick] == St::WaitWriter {
@@ -943,6 +1029,8 @@ pub fn run_conc_full(trace: &Trace, scratch: PathBuf, verbose: bool, known_open:
         }
     });
     pocket_db::verif::install(None);
+    mmap_append::verif_set_hook(None);
+    *MAP_CTL.lock().unwrap() = None;
     // C15: every reference a thread took still denotes the same bytes at the same address
     let mut ref_finding: Option<Finding> = None;
     {
@@ -985,6 +1073,7 @@ pub fn run_conc_full(trace: &Trace, scratch: PathBuf, verbose: bool, known_open:
     }
     let recs: Vec<OpRecord> = records.lock().unwrap().clone();
     let g = ctl.m.lock().unwrap();
+    let map_deadlock = g.map_deadlock.clone();
     stats.add("conc/steps", g.step);
     stats.add("conc/writer_grants", g.grants.len() as u64);
     for (_, _, from) in &g.events {
@@ -1013,6 +1102,28 @@ pub fn run_conc_full(trace: &Trace, scratch: PathBuf, verbose: bool, known_open:
         for l in &log {
             eprintln!("{l}");
         }
+    }
+
+    // ---- a modelled reader/writer dead-lock ends the run: what followed was only the drain
+    if let Some(what) = map_deadlock {
+        stats.inc("fault/map_rwlock_deadlock");
+        let sig = "map-read-lock-reentered-while-growth-waits";
+        let mut finding = None;
+        if known_open.contains(sig) {
+            known_out.push(crate::exec::Known { props: &["C14"], sig, detail: what });
+        } else {
+            finding = Some(Finding { clause: "reader-writer-deadlock".into(), props: vec!["C14"], detail: what, op_index: 0 });
+        }
+        let _ = real::catch(|| store.verif_close());
+        let _ = std::fs::remove_dir_all(&scratch);
+        pocket_types::verif_clock::set(None);
+        if let Some(f) = &finding {
+            log.push(format!("FINDING {} {}", f.clause, f.detail));
+        }
+        let nops = trace.ops.len() + recs.len();
+        let mut r = finish(finding, stats, log, sig_of_events(&ctl), nops, schedule);
+        r.result.known = known_out;
+        return r;
     }
 
     // ---- oracle
@@ -1229,6 +1340,15 @@ fn state_invariants(store: &Store, base: &Model, recs: &[OpRecord], enc: &BTreeM
         }
     }
     out
+}
+
+fn sig_of_events(ctl: &Ctl) -> u64 {
+    let g = ctl.m.lock().unwrap();
+    let mut sig: u64 = 0xcbf2_9ce4_8422_2325;
+    for (_, t, from) in &g.events {
+        sig = (sig ^ fnv1a(format!("{t}:{from}").as_bytes())).wrapping_mul(0x0000_0100_0000_01B3);
+    }
+    sig
 }
 
 /// the probing universe must include everything the threads touched
